@@ -43,9 +43,9 @@ def configs():
     return {
         'x64-asm': dict(arch='x86_64', flags=[], words=64, asm=True, tier='quick'),
         'x64-port': dict(arch='x86_64', flags=['-DDISABLE_ASM'], words=64, asm=False, tier='quick'),
-        'm0-asm': dict(arch='armv6_m', flags=m0, words=32, asm=True, tier='thorough'),
-        'm0-port': dict(arch='armv6_m', flags=m0 + ['-DDISABLE_ASM'], words=32, asm=False, tier='thorough'),
-        'a64-asm': dict(arch='aarch64', flags=['--target=aarch64-none-elf'] + free, words=64, asm=True, tier='thorough'),
+        'm0-asm': dict(arch='armv6_m', flags=m0, words=32, asm=True, tier='quick'),
+        'm0-port': dict(arch='armv6_m', flags=m0 + ['-DDISABLE_ASM'], words=32, asm=False, tier='quick'),
+        'a64-asm': dict(arch='aarch64', flags=['--target=aarch64-none-elf'] + free, words=64, asm=True, tier='quick'),
     }
 
 
